@@ -1,11 +1,110 @@
-(* C11 — property theorems only: pinned statement, `exact`, Print Assumptions. *)
+(* C11 — property theorems only: pinned statement, `exact`, Print Assumptions.
+   `construct` = PatternEncoder::new, `encode` = Encode::encode on the model of
+   Model/Pattern.v; a panic would be the chunk CPanic / the output item Boom,
+   non-termination the result OutOfFuel. *)
 From Coq Require Import String Ascii.
 From Coq Require Import List NArith Bool.
 Import ListNotations.
-From L4 Require Import Model.Pattern Proofs.PatternSpec Proofs.Pattern.
+From L4 Require Import Model.Pattern Proofs.PatternSpec Proofs.Pattern Proofs.PatternMeaning
+     Proofs.PatternParse Proofs.PatternPrefix Proofs.PatternTheorems.
 Local Open Scope N_scope.
 
-Theorem C11_error_chunk_renders :
-  forall ok ts e m, enc_chunk ok ts e (CError m) = chars (lit "{ERROR: " ++ m ++ lit "}").
-Proof. exact error_chunk_renders. Qed.
-Print Assumptions C11_error_chunk_renders.
+(* The parser terminates on every string: the fuel length+1 always suffices. *)
+Theorem C11_parse_total :
+  forall (al an : N -> bool) s, parse al an s <> OutOfFuel.
+Proof. exact parse_total. Qed.
+Print Assumptions C11_parse_total.
+
+(* Construction from ANY string succeeds and no chunk is a panic. *)
+Theorem C11_construct_no_panic :
+  forall al an ok s, exists cs, construct al an ok s = Ok cs /\ forallb no_cpanic cs = true.
+Proof. exact construct_no_panic. Qed.
+Print Assumptions C11_construct_no_panic.
+
+(* Encoding any record with an encoder constructed from ANY string never
+   panics, for all widths, any date oracle. *)
+Theorem C11_encode_no_panic :
+  forall al an ok ts e s cs,
+    construct al an ok s = Ok cs -> ~ In Boom (encode ok ts e cs).
+Proof. exact encode_no_panic. Qed.
+Print Assumptions C11_encode_no_panic.
+
+(* Every error chunk of the compiled pattern is visible as {ERROR: msg}. *)
+Theorem C11_errors_visible :
+  forall ok ts e cs m,
+    In (CError m) cs ->
+    exists pre post, encode ok ts e cs = pre ++ chars (LIT "{ERROR: " ++ m ++ [125]) ++ post.
+Proof. exact errors_visible. Qed.
+Print Assumptions C11_errors_visible.
+
+(* The parser does not depend on its fuel (used below). *)
+Theorem C11_parser_fuel_irrelevant :
+  forall al an d k s, (length s < d)%nat -> (length s < k)%nat ->
+                      top_loop (next al an d) k s = parse al an s.
+Proof. exact top_loop_parse. Qed.
+Print Assumptions C11_parser_fuel_irrelevant.
+
+(* Whatever follows a well-formed pattern, the well-formed part renders fully
+   and the rest renders as it would alone.
+   _partial: `last_boundary seq junk` requires, when the LAST node of the
+   well-formed part is a literal, that junk is empty or starts with one of
+   { } ( ) \ (otherwise the literal and junk's first text run are ONE Text
+   piece; the statement still holds at the level of output items but that case
+   is not proved), and when the last node is a format with a bare ':' spec that
+   junk does not start with '<' or '>' (finding F-C09-empty-spec-lookahead). *)
+Theorem C11_prefix_renders_before_error_partial :
+  forall (al an : N -> bool), oracle_ok al an ->
+  forall ok ts e seq junk cj,
+    wf_seq al an true false seq = true ->
+    forallb (sem_ok ok) seq = true ->
+    last_boundary seq junk ->
+    construct al an ok junk = Ok cj ->
+    exists cs, construct al an ok (print_seq seq ++ junk) = Ok cs
+               /\ encode ok ts e cs = meaning_seq ts e seq ++ encode ok ts e cj.
+Proof. exact prefix_renders. Qed.
+Print Assumptions C11_prefix_renders_before_error_partial.
+
+(* An invalid time zone argument is an error chunk, outside the open finding
+   class (several pieces, the first being utc/local). *)
+Theorem C11_invalid_zone_is_error :
+  forall ok fmt z more prm,
+    zone_valid z = false -> tz_arg_class z = false ->
+    exists m, compile_date ok (fmt :: z :: more) prm = CError m.
+Proof. exact invalid_zone_is_error. Qed.
+Print Assumptions C11_invalid_zone_is_error.
+
+(* Open finding F-C11-tz-first-piece: `{d(%Y)(utc{{x)}` is accepted as UTC. *)
+Theorem C11_tz_first_piece_refuted :
+  exists s ps,
+    parse a_alpha a_alnum s = Ok ps /\ existsb (tz_class w_ok) ps = true /\
+    construct a_alpha a_alnum w_ok s = Ok [CLeaf (KTime (LIT "%Y") Utc) default_params].
+Proof. exact tz_first_piece_refuted. Qed.
+Print Assumptions C11_tz_first_piece_refuted.
+
+(* ---------- non-vacuity / regression instances ---------- *)
+
+Example C11_ex_width_overflow :
+  construct a_alpha a_alnum w_ok (LIT "{m:99999999999999999999999}")
+  = Ok [CError (LIT "width too large")]
+  /\ construct a_alpha a_alnum w_ok (LIT "{m:18446744073709551615}")
+     = Ok [CLeaf KMessage (mkParams 32 ALeft (Some 18446744073709551615) None)]
+  /\ construct a_alpha a_alnum w_ok (LIT "{m:.18446744073709551616}")
+     = Ok [CError (LIT "width too large")].
+Proof. repeat split; vm_compute; reflexivity. Qed.
+
+Example C11_ex_invalid_date_format :
+  construct a_alpha a_alnum (fun _ => false) (LIT "a{d(%Q)}b")
+  = Ok [CText (LIT "a"); CError (LIT "invalid date format `%Q`"); CText (LIT "b")].
+Proof. vm_compute; reflexivity. Qed.
+
+Example C11_ex_errors :
+  construct a_alpha a_alnum w_ok (LIT "x{nope}{m}}y{l")
+  = Ok [CText (LIT "x"); CError (LIT "unknown formatter `nope`"); CLeaf KMessage default_params;
+        CError (LIT "unmatched '}'"); CText (LIT "y"); CError (LIT "expected '}'")].
+Proof. vm_compute; reflexivity. Qed.
+
+Example C11_ex_prefix :
+  last_boundary ex_prefix_seq (LIT "{nope") /\
+  wf_seq a_alpha a_alnum true false ex_prefix_seq = true /\
+  forallb (sem_ok w_ok) ex_prefix_seq = true.
+Proof. repeat split; vm_compute; try reflexivity; intros; try discriminate. Qed.
